@@ -136,9 +136,11 @@ impl Scope {
   }
   ///
   pub fn search_deep(&self, names: &[Name]) -> Option<Value> {
+    let first = names.first()?;
     for context in self.contexts.borrow_mut().iter().rev() {
-      if let Some(value) = context.search_deep(names) {
-        return Some(value.clone());
+      // the first context (from the top) that binds the first name decides, as in `get_entry`
+      if context.contains_entry(first) {
+        return context.search_deep(names).cloned();
       }
     }
     None
